@@ -235,12 +235,12 @@ func resetLayers(tier string) []resetLayer {
 		}
 	}
 	return []resetLayer{
-		{Name: "hash-wide", Kinds: HashKinds, Geos: wideGeos, Level: 2, Prior: Binary(3), Next: BinaryRange(1, 8), Modes: []int{0}, ResetKinds: []int{0, 2}, Bound: 0},
+		saWide, saMultifill, // slowest shards first
+		{Name: "hash-wide", Kinds: HashKinds, Geos: wideGeos, Level: 2, Prior: Binary(3), Next: BinaryRange(1, 7), Modes: []int{0}, ResetKinds: []int{0, 2}, Bound: 0},
 		{Name: "hash", Kinds: HashKinds, BufSizes: []int{3, 8}, Level: 0, Prior: Binary(3), Next: BinaryRange(1, 5), Modes: []int{0, 2}, ResetKinds: []int{0, 3}, Bound: 0, Filter: tinyTables},
 		{Name: "hash-b1", Kinds: HashKinds, BufSizes: []int{3}, Level: 2, Prior: Binary(3), Next: BinaryRange(1, 4), Modes: []int{0}, Bound: 1},
 		{Name: "sa", Kinds: sa, BufSizes: []int{3, 8}, Level: 0, Prior: Binary(3), Next: BinaryRange(1, 4), Modes: []int{0}, Bound: 0, Filter: wideOrTiny},
 		{Name: "sa-long", Kinds: sa, BufSizes: []int{100}, Level: 0, Prior: FewLong(130), Next: FewLong(90), Modes: []int{0}, Bound: 0, Filter: wideOnly},
-		saMultifill, saWide,
 	}
 }
 
@@ -323,6 +323,9 @@ func resetShardsFor(prop string, layers []resetLayer, mkOracle func() *Oracle) [
 				}
 			}
 			per := 4
+			if kind == "GSAP" || kind == "OSAP" {
+				per = 1 // a suffix sort per buffer fill: these shards are slow, keep them small
+			}
 			for lo := 0; lo < len(cfgs); lo += per {
 				part := cfgs[lo:min(lo+per, len(cfgs))]
 				shards = append(shards, engine.Shard{
@@ -648,13 +651,18 @@ func init() {
 	register(&Check{
 		ID: "C13",
 		Shards: func(tier string) []engine.Shard {
-			return append(resetShards(tier), concurrentShards(tier)...)
+			// the loop-level scenarios are the longest single shards: start them first
+			return append(append(loopShards(tier), resetShards(tier)...), concurrentShards(tier)...)
 		},
 		Replay: func(raw json.RawMessage, col *engine.Collector) error {
 			var probe struct {
 				Scenario string `json:"scenario"`
+				Loop     string `json:"loop_scenario"`
 			}
 			json.Unmarshal(raw, &probe)
+			if probe.Loop != "" {
+				return replayLoop(raw, col)
+			}
 			if probe.Scenario != "" {
 				// re-run the whole scenario (all interleavings are enumerated again)
 				var st engine.Stats
